@@ -291,3 +291,59 @@ func VerifC02_Reuse() {
 	}
 	vnd.Assert(!s.JobExists(ctx, "job"), "C02.reuse.job-table-empty-afterwards")
 }
+
+// VerifC02_CancelReschedule: a job is cancelled and its name scheduled again
+// straight away (what the controller does with its duty jobs after a reorg),
+// at any moment up to and including the instant the first job's timer fires.
+// The goroutine of the cancelled job deals with its cancel signal at a moment of
+// its own choosing - before or after the name is taken again - and the
+// replacement is untouched by it: it stays in the table until it is claimed, can
+// be cancelled (and then never runs) or started early, and nothing runs twice.
+func VerifC02_CancelReschedule() {
+	s := &Service{jobs: make(map[string]*job)}
+	ctx := context.Background()
+	var runs [2]int
+	T := c02Delay("first.delay")
+	err := s.ScheduleJob(ctx, "class", "job", time.Now().Add(T), func(_ context.Context) { runs[0]++ })
+	vnd.Assert(err == nil, "C02.resched.accepted")
+	dc := c02Delay("cancel.at")
+	vnd.Assume(dc <= T)
+	then := vnd.Choose("replacement.then", 3) // 0 left alone, 1 cancelled, 2 started early
+	var cancelErr, schedErr, thenErr error
+	existsLater := false
+	go func() {
+		vnd.Sleep(dc)
+		cancelErr = s.CancelJob(ctx, "job")
+		schedErr = s.ScheduleJob(ctx, "class", "job", time.Now().Add(3*time.Hour), func(_ context.Context) { runs[1]++ })
+		vnd.Sleep(time.Hour)
+		existsLater = s.JobExists(ctx, "job")
+		switch then {
+		case 1:
+			thenErr = s.CancelJob(ctx, "job")
+		case 2:
+			thenErr = s.RunJob(ctx, "job")
+		}
+	}()
+	left := vnd.Quiesce()
+	vnd.Assert(left == 0, "C02.resched.no-goroutine-left-blocked")
+	vnd.Assert(runs[0] <= 1, "C02.resched.first-never-runs-twice")
+	if dc < T {
+		vnd.Assert(cancelErr == nil && runs[0] == 0, "C02.resched.job-cancelled-before-its-time-never-runs")
+	} else {
+		vnd.Cover("C02.resched.cancel-at-the-instant-the-timer-fires")
+	}
+	vnd.Assert(schedErr == nil, "C02.resched.name-free-after-cancel")
+	vnd.Assert(existsLater, "C02.resched.replacement-still-known-an-hour-later")
+	vnd.Assert(runs[1] <= 1, "C02.resched.never-runs-twice")
+	switch then {
+	case 0:
+		vnd.Assert(runs[1] == 1, "C02.resched.replacement-runs-at-its-time")
+	case 1:
+		vnd.Cover("C02.resched.replacement-cancelled")
+		vnd.Assert(thenErr == nil && runs[1] == 0, "C02.resched.cancelled-replacement-never-runs")
+	case 2:
+		vnd.Cover("C02.resched.replacement-started-early")
+		vnd.Assert(thenErr == nil && runs[1] == 1, "C02.resched.replacement-started-early-runs-once")
+	}
+	vnd.Assert(!s.JobExists(ctx, "job"), "C02.resched.job-table-empty-afterwards")
+}
